@@ -594,6 +594,9 @@ class ModelingUpdate:
     def make_simulation_specific_operations(self):""", """        put_back_replaced_values(replaced_pairs)
 
     def make_simulation_specific_operations(self):""")], ["default of restored_ids"])
+mut("cumul: negative storage check against exact zero (revert of fix F27)", ["R-CUMUL"],
+    [("core/hardware/storage.py", "            if cumulative_need.min() < -1e-9 * cumulative_need.abs().max():",
+      "            if cumulative_need.min().magnitude < 0:")], ["negativity check against exact zero"])
 mut("noop: hourly == raises on another length (revert of fix F23)", ["R-NOOP"],
     [(EO, """            if len(self.value) != len(other.value):
                 return False
